@@ -999,8 +999,9 @@ pub fn o_replies(plan: &Plan, out: &Outcome, vs: &mut Vec<Violation>) {
         }
         if m.recover.is_some() && !recover_succeeded(out, m) {
             // the shim could not report the failure (finish_error refused): the error ends the
-            // connection, nothing more is owed
-            break;
+            // connection, nothing more is owed (and whatever part of the reply had already
+            // left, e.g. through a TLS layer that flushes per record, is not judged)
+            return;
         }
         let d = match &w.replies[u] {
             Some(Ok(d)) => d,
